@@ -180,7 +180,10 @@ class CRunner:
             elif e[0] == 'wsconnect':
                 out.append(('wsconnect', e[1], e[2]))
             elif e[0] == 'wssend':
-                out.append(('wssend', e[1], ck_of_wire(e[2])))
+                c = ck_of_wire(e[2])
+                if isinstance(e[2], str) and e[2].startswith('b'):
+                    c = ('unknown', e[2])       # base64 belongs in polling bodies; on WebSocket binary data travels in binary frames
+                out.append(('wssend', e[1], c))
             elif e[0] == 'wsclose':
                 out.append(('wsclose', e[1]))
             elif e[0] == 'ev':
